@@ -88,29 +88,7 @@ FAMILIES = {
     "mixed": ["/<int:x>/", "/<string:x>", "/<path:x>/", "/a/<path:x>", "/<string:y>/<int:x>", "/12"],
 }
 
-WITNESS = {
-    "string": ["x", "xy"],
-    "string(length=2)": ["x", "xy", "xyz"],
-    "string(minlength=2)": ["x", "xy"],
-    "int": ["1", "12"],
-    "int(fixed_digits=2)": ["1", "12", "123"],
-    "float": ["1.5", "1"],
-    "any(a,b)": ["a", "b", "c"],
-    "uuid": [UU, UU[:-1]],
-    "path": ["x"],
-}
-MISS = "zz"
-
-
-def seg_tokens(s):
-    if s[0] == "lit":
-        return [s[1]]
-    _k, pre, conv, _n, post = s
-    out = [pre + w + post for w in WITNESS[conv]]
-    if pre or post:
-        out.append(pre + post)          # empty variable
-        out.append(WITNESS[conv][0])    # affix missing
-    return out
+WITNESS, MISS, seg_tokens, path_set = rr.WITNESS, rr.MISS, rr.seg_tokens, rr.path_set
 
 
 # method assignments per map size (None = any method)
@@ -133,8 +111,11 @@ def map_descriptors(tier):
     for i in range(n):
         for ms in ASSIGN[(tier, 1)]:
             yield (i,), ms
+    red2 = {IDX[x] for x in REDUCED_THOROUGH}
     for i, j in itertools.combinations(range(n), 2):
-        for ms in ASSIGN[(tier, 2)]:
+        for q, ms in enumerate(ASSIGN[(tier, 2)]):
+            if not T and q >= 2 and not (i in red2 and j in red2):
+                continue                   # quick: mixed any-method / restricted pairs over the reduced universe only
             yield (i, j), ms
     for i in range(n):                     # the same pattern twice, split by method
         yield (i, i), (G, P)
@@ -159,7 +140,7 @@ def units(tier):
     small, big = [], []
     for d in map_descriptors(tier):
         (big if len(d[0]) >= 4 else small).append(d)
-    out = [("maps", c) for c in gen.chunked(small, 24 if tier == "quick" else 40)]
+    out = [("maps", c) for c in gen.chunked(small, 8 if tier == "quick" else 16)]
     # a map of k rules has k! insertion orders: split the orders of big maps over several units
     for d in big:
         k = len(d[0])
@@ -175,60 +156,6 @@ def specs_for(desc):
     shapes, methods = desc
     return [rr.spec(SHAPES[si][0], SHAPES[si][1], methods=ms, endpoint=f"e{k}")
             for k, (si, ms) in enumerate(zip(shapes, methods))]
-
-
-def path_set(specs):
-    """Closed path set generated from the map's own segments."""
-    rules = [rr.RefRule(sp, i, True, True) for i, sp in enumerate(specs)]
-    lmax = max([len(r.segs) + (1 if r.has_path else 0) for r in rules] + [1])
-    pos: list[list[str]] = []
-    for i in range(lmax):
-        toks: list[str] = []
-        for r in rules:
-            if i < len(r.segs):
-                toks += seg_tokens(r.segs[i])
-            elif r.has_path:
-                toks += ["x"]
-        toks.append(MISS)
-        seen, uniq = set(), []
-        for t in toks:
-            if t not in seen:
-                seen.add(t)
-                uniq.append(t)
-        pos.append(uniq)
-    bases = []
-    for n in range(1, lmax + 1):
-        for t in itertools.product(*pos[:n]):
-            bases.append("/" + "/".join(t))
-    bases.append("/" + "/".join([p[0] for p in pos] + [MISS]))      # one path that is too long
-    out = ["/", "//", "///"]
-    seen = set(out)
-
-    def add(p):
-        if p not in seen:
-            seen.add(p)
-            out.append(p)
-
-    for b in bases:
-        add(b)
-        add(b + "/")
-        near = any(r.exact(b, True) or r.exact(b + "/", True) for r in rules)
-        if not near:
-            continue
-        add(b + "//")
-        add(b + "///")
-        add("/" + b)
-        add("/" + b + "/")
-        segs = b.split("/")[1:]
-        for cut in range(1, len(segs)):
-            head, tail = "/" + "/".join(segs[:cut]), "/".join(segs[cut:])
-            add(head + "//" + tail)
-            add(head + "//" + tail + "/")
-            add(head + "///" + tail)
-            if cut == 1:
-                add(head + "////" + tail)
-                add("//" + head[1:] + "//" + tail + "//")
-    return out
 
 
 def build_adapter(specs, order, strict, merge):
@@ -254,6 +181,7 @@ def run_impl(ad, p, method):
 # ------------------------------------------------------------------ known-defect explanation
 
 FD_VERDICTS = {"404-but-admitted", "404-should-405", "405-but-admitted", "405-no-rule", "405-methods-extra",
+               "405-methods-missing",
                "redirect-unjustified", "redirect-wrong-target"}
 
 
@@ -262,33 +190,28 @@ def fd_late(ref: rr.RefMap, pn: str, method: str, verdict: str, outcome):
 
     The matcher selects a rule by the converter regex (\\d+) and validates the digit count only after the
     rule has been chosen (no backtracking).  So: there must be a fixed_digits rule f that admits the path
-    only if the digit count is ignored, f must not be strictly worse than a rule that really admits the
-    path (else that rule is chosen first), and the observed outcome must be the one f produces."""
+    (directly, with a slash added, or merged) only if the digit count is ignored, and the observed outcome
+    must be what that mechanism yields: either the outcome is the correct one for the map in which f's
+    pattern is plain \\d+ (redirects, 405 method lists - these are computed before the validation), or it
+    is a 404/405 and f is a candidate for this method that no really-admitting rule strictly beats (f is
+    chosen, fails validation, NoMatch is raised with whatever methods were collected so far)."""
     strict_keys = {(a.rule.idx, a.kind, a.target) for a in ref.admissions(pn)}
     late = [a for a in ref.admissions(pn, lenient_fixed=True)
             if (a.rule.idx, a.kind, a.target) not in strict_keys and a.rule.fixed]
-    if not late:
-        return [], False
-    mine_def = [a for a in ref.admissions(pn) if a.rule.method_ok(method) and a.definite and a.kind != "M"]
+    if not late or verdict not in FD_VERDICTS:
+        return [(a.rule.string, a.kind) for a in late], False
     info = [(a.rule.string, a.kind) for a in late]
-    ok = False
-    for a in late:
-        f = a.rule
-        shadowed = any(rr.better(d.rule, f) is True for d in mine_def)
-        if verdict in ("404-but-admitted", "404-should-405", "405-but-admitted"):
-            if f.method_ok(method) and a.kind in "XL" and not shadowed:
-                ok = True
-        elif verdict in ("redirect-unjustified", "redirect-wrong-target"):
-            if f.method_ok(method) and a.kind in "RM" and not shadowed and \
-                    outcome[1] == "http://h" + rr.quote(a.target, safe=rr.SAFE):
-                ok = True
-        elif verdict in ("405-no-rule", "405-methods-extra"):
-            if not f.method_ok(method) and a.kind in "XL":
-                ex = ref.expect(pn, method)
-                extra = set(outcome[1]) - set(ex.hi405)
-                if extra and extra <= set(f.methods):
-                    ok = True
-    return info, ok
+    lex = ref.expect(pn, method, lenient_fixed=True)
+    if rr.judge(lex, outcome) is None:
+        return info, True
+    if outcome[0] in ("404", "405"):
+        mine_def = [a for a in ref.admissions(pn) if a.rule.method_ok(method) and a.definite and a.kind != "M"]
+        for a in late:
+            f = a.rule
+            if f.method_ok(method) and a.kind in "XL" and not any(rr.better(d.rule, f) is True for d in mine_def):
+                if outcome[0] == "404" or set(outcome[1]) <= set(lex.hi405):
+                    return info, True
+    return info, False
 
 
 # ------------------------------------------------------------------ unit
@@ -310,52 +233,61 @@ def check_map(desc, R, tier, orders=None):
         R.use("leaf" if not sp["trail"] else "branch")
         R.use("methods" if sp["methods"] else "anymethod")
     R.use(f"size:{k}")
+    local_out: set = set()
+    nev = 0
     for strict, merge in CONFIGS:
         ref = rr.RefMap(specs, strict, merge)
-        exp: dict = {}
-        pn_of = {p: rr.normalise_path(p) for p in paths}
-        first_seen: dict = {}
-        for order in orders:
+        cases = []
+        for p in paths:
+            pn = rr.normalise_path(p)
+            for method in methods:
+                ex = ref.expect(pn, method)
+                note_expectation(R, ex, (strings, desc[1], strict, merge, pn, method))
+                cases.append([p, pn, method, ex, None])
+        for oi, order in enumerate(orders):
             ad = build_adapter(specs, order, strict, merge)
             R.count("bound_maps")
-            for p in paths:
-                pn = pn_of[p]
-                for method in methods:
-                    ex = exp.get((pn, method))
-                    if ex is None:
-                        ex = exp[(pn, method)] = ref.expect(pn, method)
-                        note_expectation(R, ex, (strings, desc[1], strict, merge, pn, method))
-                    out = run_impl(ad, p, method)
-                    R.ev()
-                    verdict = rr.judge(ex, out)
-                    okind = out[0]
-                    if okind == "redir":
-                        okind = "redir-slash" if out[1].endswith(rr.quote(pn, safe=rr.SAFE) + "/") else "redir-merge"
-                    R.outcome((okind, verdict))
-                    R.use("out:" + okind)
-                    if okind == "404" and "///" in pn and verdict is None and any(a.kind == "M" for a in ex.mine):
-                        R.count("long_run_404")
-                    # independence of insertion order wherever the documented order decides
-                    prev = first_seen.setdefault((p, method), (order, out))
-                    if prev[1] != out:
-                        if ex.decided and verdict is None and rr.judge(ex, prev[1]) is None:
-                            verdict = "order-dependent-though-decided"
-                        else:
-                            R.count("order_dependent_undecided")
-                            R.use("oracle:order-may")
-                    if verdict is not None:
-                        info, explains = fd_late(ref, pn, method, verdict, out)
-                        R.violation(
-                            "match:" + verdict,
-                            {"kind": "route", "rules": specs, "order": list(order), "strict": strict,
-                             "merge": merge, "path": p, "method": method, "outcome": out,
-                             "verdict": verdict, "expected": ex.describe(),
-                             "rule_strings": [strings[i] for i in order],
-                             "fd_late": info, "fd_explains": explains},
-                        )
-        if desc[0] and R.counts["maps"] % 53 == 1 and strict and merge:
-            R.sample({"rules": strings, "methods": desc[1], "orders": len(orders), "paths": paths[:12],
-                      "n_paths": len(paths)})
+            for case in cases:
+                p, pn, method, ex, first = case
+                out = run_impl(ad, p, method)
+                nev += 1
+                verdict = rr.judge(ex, out)
+                okind = out[0]
+                if okind == "redir":
+                    okind = "redir-slash" if out[1].endswith(pn + "/") else "redir-merge"
+                elif okind == "404" and ex.long_run and verdict is None and ex.mine:
+                    R.count("long_run_404")
+                local_out.add((okind, verdict))
+                # independence of insertion order wherever the documented order decides
+                if first is None:
+                    case[4] = out
+                elif first != out:
+                    if ex.decided and verdict is None and rr.judge(ex, first) is None:
+                        verdict = "order-dependent-though-decided"
+                    else:
+                        R.count("order_dependent_undecided")
+                        R.use("oracle:order-may")
+                if verdict is not None:
+                    info, explains = fd_late(ref, pn, method, verdict, out)
+                    R.violation(
+                        "match:" + verdict,
+                        {"kind": "route", "rules": specs, "order": list(order), "strict": strict,
+                         "merge": merge, "path": p, "method": method, "outcome": out,
+                         "verdict": verdict, "expected": ex.describe(),
+                         "rule_strings": [strings[i] for i in order],
+                         "fd_late": info, "fd_explains": explains},
+                    )
+        if k >= 2 and R.counts["maps"] % 41 == 1 and strict and merge:
+            for case in cases:
+                if len(case[3].adms) >= 2 and case[4] is not None and case[4][0] != "404":
+                    R.sample({"rules": strings, "methods": desc[1], "strict_slashes": strict, "merge_slashes": merge,
+                              "insertion_orders": len(orders), "path": case[0], "method": case[2],
+                              "observed_first_order": case[4], "allowed": case[3].describe()})
+                    break
+    R.ev(nev)
+    for okind, verdict in local_out:
+        R.outcome((okind, verdict))
+        R.use("out:" + okind)
 
 
 def note_expectation(R, ex, key):
